@@ -53,6 +53,7 @@ def accept_opcode(s: "Scanner") -> bool:
         "\n",
         "\t",
         ".",
+        ";",
         EOF,
     ):
         s.pos += 3
